@@ -77,6 +77,27 @@ func (g *storeGenState) freshTime(target, typ, key string) int64 {
 	}
 }
 
+// an instant near either end of the representable range, not yet used for the identity ("edge-of-time", "far") on this target
+func (g *storeGenState) freshFar(target string) int64 {
+	id := target + "|edge-of-time|far"
+	if g.used[id] == nil {
+		g.used[id] = map[int64]bool{}
+	}
+	for {
+		t := int64(math.MinInt64) + int64(g.r.Intn(1000000))
+		if g.r.Intn(2) == 0 {
+			t = int64(math.MaxInt64) - int64(g.r.Intn(1000000))
+		}
+		if g.r.Intn(4) == 0 {
+			t = storeBase + int64(g.r.Intn(1000))*1e9 // ... or an everyday one in between
+		}
+		if !g.used[id][t] {
+			g.used[id][t] = true
+			return t
+		}
+	}
+}
+
 func (g *storeGenState) value() uint64 {
 	switch g.r.Intn(15) {
 	case 14:
@@ -207,6 +228,11 @@ func (g *storeGenState) batch(target string, max int) []sPoint {
 		p := g.dataPoint(target)
 		p.Type, p.Key = "edge-of-time", fmt.Sprintf("%d", len(g.ops))
 		p.Time = []int64{math.MaxInt64, math.MinInt64, math.MaxInt64 - 1, math.MinInt64 + 1}[g.r.Intn(4)]
+		if g.r.Intn(2) == 0 {
+			// one identity written at instants centuries apart (their distance does not fit 64-bit nanoseconds)
+			p.Key = "far"
+			p.Time = g.freshFar(target)
+		}
 		ps = append(ps, p)
 	}
 	g.r.Shuffle(len(ps), func(i, j int) { ps[i], ps[j] = ps[j], ps[i] })
@@ -346,7 +372,8 @@ func (g *storeGenState) refused() {
 			n := g.pickNode()
 			p := g.pickNode()
 			if n != p && !g.edges[p+">"+n] && g.isAncestorOrSelf(n, p, 0) && n != storeRootID {
-				g.add("refused-cycle", sOp{Kind: "ep", Node: n, Parent: p, Points: []sPoint{g.tombPoint(0), g.typePoint("group")}})
+				// (also when the new edge would be created already deleted: a deleted edge is walked like any other)
+				g.add("refused-cycle", sOp{Kind: "ep", Node: n, Parent: p, Points: []sPoint{g.tombPoint(float64(g.r.Intn(2))), g.typePoint("group")}})
 				return
 			}
 		}
@@ -392,6 +419,21 @@ func storeGen(r *rand.Rand, id int, flavour string) *sScript {
 		if r.Intn(3) == 0 {
 			g.mirror()
 		}
+	}
+	if id%20 == 11 {
+		// one script in twenty: a chain of 36 nodes below the root, then writes at its bottom (every hash up to the
+		// root edge moves, however deep the node is)
+		parent := storeRootID
+		for k := 0; k < 36; k++ {
+			n := fmt.Sprintf("deep%d", k)
+			g.add("deep-chain", sOp{Kind: "ep", Node: n, Parent: parent, Points: []sPoint{g.tombPoint(0), g.typePoint("group")}})
+			g.nodes = append(g.nodes, n)
+			g.edges[parent+">"+n] = true
+			g.parents[n] = append(g.parents[n], parent)
+			parent = n
+		}
+		g.add("deep-chain-write", sOp{Kind: "np", Node: parent, Points: g.batch(parent, 2)})
+		g.add("deep-chain-write", sOp{Kind: "ep", Node: parent, Parent: "deep34", Points: []sPoint{{Type: "sortOrder", Time: g.tick(), VBits: math.Float64bits(3)}}})
 	}
 	nOps := 4 + r.Intn(10)
 	for i := 0; i < nOps; i++ {
